@@ -72,13 +72,16 @@ Proof. unfold filter_subsequent. rewrite !sort_by_map, groupby_map, flat_map_map
   rewrite (groupby_ext (fun x => qid (er_row x)) qid) by reflexivity.
   apply flat_map_ext. intros [|x g]; reflexivity. Qed.
 
+Lemma er_joined_ok j : joined_ok (er_row j) = joined_ok j.
+Proof. exact (er_row_has_pairs j). Qed.
 Definition er_rr (r : list row * list row) : list row * list row := (map er_row (fst r), map er_row (snd r)).
 Lemma er_resolve_groups md gs : resolve_groups md (map (map er_row) gs) = rmap er_rr (resolve_groups md gs).
 Proof. induction gs as [|g t IH]; [reflexivity|]. cbn [map resolve_groups]. rewrite IH.
   destruct (resolve_groups md t) as [r|]; cbn [bind rmap]; [|reflexivity].
   destruct g as [|x [|y u]]; cbn [map]; try reflexivity.
   rewrite er_check_overlap. destruct (check_overlap x y md).
-  - rewrite er_join_rows. destruct (join_rows x y); reflexivity.
+  - rewrite er_join_rows. destruct (join_rows x y) as [j|]; cbn [bind rmap]; [|reflexivity]. rewrite er_joined_ok.
+    destruct (joined_ok j); [reflexivity|]. unfold er_rr. cbn [fst snd bind rmap]. rewrite map_app. reflexivity.
   - unfold er_rr. cbn [fst snd bind rmap]. rewrite map_app. reflexivity. Qed.
 Lemma er_groups rows :
   flat_map (fun byref => groupby qid (sort_by qid byref)) (groupby rid (sort_by rid (map er_row rows)))
